@@ -7,6 +7,7 @@ import (
 	"sort"
 	"strings"
 
+	"golang.org/x/tools/go/callgraph"
 	"golang.org/x/tools/go/ssa"
 )
 
@@ -128,7 +129,7 @@ func (li *lexerInfo) posDelta(in ssa.Instruction) (int, bool) {
 func runC16(c *Ctx, r *Report) {
 	r.Rule("C16.R1", "token text = bytes spanned: in every lexer function that returns a slice of the input as token text, the low bound is the token start (position at entry minus the byte already consumed) and the high bound is the current position at that return (no position write between reading the bound and returning, or the position is rewound to the bound)")
 	r.Rule("C16.R2", "constant tokens: on every path of NextToken to a return of a one-byte constant token (or ILLEGAL) the position advanced by exactly 1 after skipping whitespace, and by exactly 2 for two-byte tokens; unchecked table lookups are only reached with byte pairs / bytes that are registered (path conditions evaluated on all 256x256 byte pairs)")
-	r.Rule("C16.R3", "interning and keywords: identifier text goes only through LookupIdent, which consults the keyword table before interning an IDENT; the keyword table is filled for the whole identity-token range; value tokens are built through Intern")
+	r.Rule("C16.R3", "interning and keywords: identifier text goes only through LookupIdent, which consults the keyword table before interning an IDENT; the keyword table is filled for the whole identity-token range; value tokens are built through Intern; nothing reachable from token production (NextToken, Intern, InternToken, LookupIdent) replaces, clears or deletes from the interning table")
 	r.Rule("C16.R4", "sticky end marker: NextToken returns the end marker only when the position is past the end of the input (a NUL byte inside the input is not the end)")
 
 	li := c.lexerInfo()
@@ -413,7 +414,64 @@ func runC16(c *Ctx, r *Report) {
 		r.Check(byType != nil && byType == byLex, "C16.R3", ssaFuncName(af), "the token registered by type is the instance the lexer returns", c.Pos(af.Pos()),
 			"the by-type table and the lexer's table hold different Token objects for the same token: pointer comparisons with token.ByType (macro definitions, unquote detection) silently fail")
 	}
-	r.Floor("C16.R3", 5)
+	// the interning table only grows while tokens are being produced
+	{
+		tokPkg := c.SSAPkg("token")
+		var table *ssa.Global
+		for _, m := range tokPkg.Members {
+			if g, ok := m.(*ssa.Global); ok && g.Name() == "interning" {
+				table = g
+			}
+		}
+		if table == nil {
+			r.Undecided("C16.R3: token.interning not found")
+		} else {
+			// functions that replace or shrink the table
+			shrinkers := map[*ssa.Function]string{}
+			fns := c.ModuleSSAFuncs()
+			for _, fn := range fns {
+				eachInstr(fn, func(in ssa.Instruction) {
+					switch x := in.(type) {
+					case *ssa.Store:
+						if x.Addr == ssa.Value(table) {
+							shrinkers[fn] = "replaces the table"
+						}
+					case *ssa.Call:
+						if bi, ok := x.Common().Value.(*ssa.Builtin); ok && (bi.Name() == "delete" || bi.Name() == "clear") && len(x.Common().Args) > 0 {
+							if ld, ok := x.Common().Args[0].(*ssa.UnOp); ok && ld.X == ssa.Value(table) {
+								shrinkers[fn] = bi.Name() + "s entries of the table"
+							}
+						}
+					}
+				})
+			}
+			if len(shrinkers) == 0 {
+				r.Undecided("C16.R3: nothing ever initialises token.interning")
+			}
+			// reach of token production: the lexer's NextToken and the interning API
+			roots := []*ssa.Function{c.SSAFn(c.Fn("lexer", "Lexer.NextToken")), c.SSAFn(c.Fn("token", "InternToken")), c.SSAFn(c.Fn("token", "Intern")), c.SSAFn(c.Fn("token", "LookupIdent"))}
+			taken := c.AddressTaken()
+			reach := c.CG().Reach(roots, func(e *callgraph.Edge) bool {
+				if e.Site == nil {
+					return true
+				}
+				cc := e.Site.Common()
+				if cc.IsInvoke() || cc.StaticCallee() != nil {
+					return true
+				}
+				return taken[e.Callee.Func]
+			}, func(f *ssa.Function) bool { return !isModuleSSA(f) })
+			shrinkSet := map[*ssa.Function]bool{}
+			for fn := range shrinkers {
+				shrinkSet[fn] = true
+			}
+			for _, fn := range sortedFuncs(shrinkSet) {
+				r.Check(!reach[fn], "C16.R3", ssaFuncName(fn), "the function that "+shrinkers[fn]+" is not reachable from token production", c.Pos(fn.Pos()),
+					"the interning table can be emptied while tokens are being produced: a token handed out earlier and an equal one produced later are then two objects, and pointer comparisons between them (ast nodes keep their token) fail")
+			}
+		}
+	}
+	r.Floor("C16.R3", 6)
 
 	// ---- R4 ----
 	{
